@@ -20,7 +20,7 @@ LEVEL_NOTE = ("Trusted: Lean kernel (+ standard axioms); hand models (tied by co
               "error bound relative to the global running sum; numpy's NaN ordering in sort.")
 TECHNIQUE = "Lean 4 proof of global-scan tricks = per-row numpy semantics; numpy-evaluated correspondence"
 DESIGN_REF = "6.7"
-LEAN_MODULES = ["NpsVerif.Props.C07"]
+LEAN_MODULES = ["NpsVerif.Props.C07Scan", "NpsVerif.Props.C07Sort"]
 KERNELS = ()
 RULE = ("cases = ragged shape (exhaustive <=3 rows x <=3 cells + random up to 12 rows) x function (cumsum, add/subtract/xor.accumulate, "
         "sort, unique with/without counts, diff of order 1..4) x dtype x value pattern (small / duplicates / dtype extremes / NaN); "
